@@ -449,7 +449,7 @@ func boolKeyPol(pa *Path, m TM, key string, want string) int {
 			}
 		}
 	}
-	if h == 1 && k == 1 && t == 1 {
+	if h != -1 && k == 1 && t == 1 {
 		return 1
 	}
 	if h == -1 || k == -1 || t == -1 {
@@ -540,7 +540,7 @@ func ruleC11Select(p *Prog, r *Result) {
 		h := guardPol(pa, "has", objP, TM(mStr("$output")))
 		b := guardPol(pa, "kind", mLookup(objP, mStr("$output")), "bool")
 		e := guardPol(pa, "eq", mLookup(objP, mStr("$output")), nil)
-		if h == 1 && b == 1 && e == 1 {
+		if h != -1 && b == 1 && e == 1 {
 			return 1
 		}
 		if h == -1 || b == -1 || e == -1 {
